@@ -2,6 +2,7 @@ import numpy as np
 from dataclasses import dataclass, field, fields
 from typing import Union
 from math import isclose
+from fractions import Fraction as RationalNumber
 
 from .settings import *
 
@@ -22,6 +23,12 @@ class Fraction:
     @staticmethod
     def from_tuple(value: tuple):
         return Fraction(value[0],value[1])
+
+    @staticmethod
+    def from_float(value: float):
+        # closest rational with a small denominator (0.5 -> 1:2, 1.5 -> 3:2)
+        value = RationalNumber(value).limit_denominator(1000)
+        return Fraction(value.numerator, value.denominator)
 
     @staticmethod
     def from_fraction(value: 'Fraction'):
@@ -72,6 +79,8 @@ class Fraction:
             return Fraction(self.num*other.num, self.den*other.den)
         elif isinstance(other, tuple):
             return Fraction(self.num*other[0], self.den*other[1])
+        elif isinstance(other, float):
+            return self*Fraction.from_float(other)
         else:
             return Fraction(self.num*other, self.den)
 
@@ -80,6 +89,8 @@ class Fraction:
             return Fraction(self.num*other.den, self.den*other.num)
         elif isinstance(other, tuple):
             return Fraction(self.num*other[1], self.den*other[0])
+        elif isinstance(other, float):
+            return self/Fraction.from_float(other)
         else:
             return Fraction(self.num, self.den*other)
     
